@@ -329,7 +329,7 @@ func (e *BinaryOpExpr) execStringIn(kv KVPair, ctx *ExecuteCtx) (any, error) {
 			}
 		}
 		return false, nil
-	case *FunctionCallExpr:
+	case *FunctionCallExpr, *FieldReferenceExpr:
 		if rlist.ReturnType() != TLIST {
 			return false, NewExecuteError(rlist.GetPos(), "in operator right expression has wrong type, not list 1")
 		}
@@ -338,6 +338,9 @@ func (e *BinaryOpExpr) execStringIn(kv KVPair, ctx *ExecuteCtx) (any, error) {
 			return false, err
 		}
 		vals, ok := fret.([]any)
+		if !ok {
+			vals, ok = unpackArray(fret)
+		}
 		if !ok {
 			return false, NewExecuteError(rlist.GetPos(), "in operator right expression has wrong type, not list 2")
 		}
@@ -379,7 +382,7 @@ func (e *BinaryOpExpr) execNumberIn(kv KVPair, ctx *ExecuteCtx) (any, error) {
 			}
 		}
 		return false, nil
-	case *FunctionCallExpr:
+	case *FunctionCallExpr, *FieldReferenceExpr:
 		if rlist.ReturnType() != TLIST {
 			return false, NewExecuteError(rlist.GetPos(), "in operator right expression has wrong type, not list")
 		}
@@ -388,6 +391,9 @@ func (e *BinaryOpExpr) execNumberIn(kv KVPair, ctx *ExecuteCtx) (any, error) {
 			return false, err
 		}
 		vals, ok := fret.([]any)
+		if !ok {
+			vals, ok = unpackArray(fret)
+		}
 		if !ok {
 			return false, NewExecuteError(rlist.GetPos(), "in operator right expression has wrong type, not list")
 		}
@@ -616,6 +622,24 @@ func (e *FieldAccessExpr) execListAccess(idx int, left any) (any, error) {
 	)
 	switch lval := left.(type) {
 	case []any:
+		lvallen := len(lval)
+		if idx < lvallen {
+			have = true
+			fval = lval[idx]
+		}
+	case []string:
+		lvallen := len(lval)
+		if idx < lvallen {
+			have = true
+			fval = lval[idx]
+		}
+	case []int64:
+		lvallen := len(lval)
+		if idx < lvallen {
+			have = true
+			fval = lval[idx]
+		}
+	case []float64:
 		lvallen := len(lval)
 		if idx < lvallen {
 			have = true
